@@ -435,18 +435,67 @@ def checkTraffic (cfg : Cfg) (a : A) (evs : List Ev) : A :=
 
 /-- the part of a round after the last frame read: periodic messages -/
 def tail (cfg : Cfg) (a : A) (evs : List Ev) : A :=
-  let tick1 := cfg.timing && a.now - a.tTiming > 900
+  let tick1 := cfg.timing && a.now - a.tTiming > cfg.pTiming
   let a := if tick1 then checkTiming cfg a evs else a.chk (!(sends evs).any (fun p => match p.2.2.body with | .timing .. => true | _ => false)) "C18" "TIMING_MESSAGE sent before its period elapsed"
   let a := if tick1 then { a with pubT := [], recvT := [], tTiming := a.now } else a
-  let tick2 := a.now - a.tTraffic > 1000
+  let tick2 := a.now - a.tTraffic > cfg.pTraffic
   let a := if tick2 then checkTraffic cfg a evs else a
   let a := if tick2 then { a with pubR := [], recvR := [], tTraffic := a.now, seq := a.seq + 1 } else a
-  let a := if a.now - a.tInfo > 5000 then { a with tInfo := a.now } else a
+  let a := if a.now - a.tInfo > cfg.pInfo then { a with tInfo := a.now } else a
   a
 
 /-! ### one round -/
 
-def round (cfg : Cfg) (a : A) (r : Round) (evs : List Ev) : A :=
+/-! ### C14: a notice is never invented -/
+
+/-- Every FAILED_MESSAGE written while one frame is handled reports a delivery that was really under way: it names a
+module of the table and carries the type, source and destination either of the data frame just read (the frame being
+forwarded) or of a message the manager itself originates (source 0; destination 0, or — for an ACKNOWLEDGE — the
+requester).  `rd = none`: the stretch before the first read of a round and the periodic section. -/
+def noticeJustified (cfg : Cfg) (a : A) (rd : Option Read) (f : Frame) : Bool :=
+  match f.body with
+  | .failed dm t s d =>
+    let own := isMgrType cfg t && s == 0 && (d == 0 || t == cfg.mtAck)
+    let fwd := match rd with
+      | none => false
+      | some r =>
+        let h := r.h
+        !r.hdrErr && r.hdrOk && !isControl cfg h.mtype && t == h.mtype && s == h.src && d == h.dest
+    let connecting := match rd with
+      | some r => r.h.mtype == cfg.mtConnect || r.h.mtype == cfg.mtConnectV2
+      | none => false
+    (own || fwd) && (connecting || a.mods.any (fun m => m.alive && m.modId == dm))
+  | _ => true
+
+def checkNoticeOrigin (cfg : Cfg) (a : A) (rd : Option Read) (evs : List Ev) : A :=
+  match (sends evs).find? (fun p => !noticeJustified cfg a rd p.2.2) with
+  | none => a
+  | some p =>
+    match p.2.2.body with
+    | .failed dm t s d =>
+      a.err "C14" s!"a FAILED_MESSAGE sent to {p.1} names subscriber id {dm} and carries type {t}, source {s}, destination {d}: no such delivery was under way"
+    | _ => a
+
+/-- C14: “a logger module is waited for instead of being skipped”: a logger that subscribes to the type of the data frame
+being forwarded gets its copy also when its connection was not ready to accept data in this round (whatever the destination
+of the frame: loggers hear addressed messages too). -/
+def checkLoggerWaited (cfg : Cfg) (a : A) (rd : Read) (evs : List Ev) : A :=
+  match a.get rd.uid with
+  | none => a
+  | some m =>
+    let h := rd.h
+    let broken := rd.hdrErr || !rd.hdrOk || h.nbytes < 0 || h.nbytes > cfg.bufMax ||
+                  (h.nbytes > 0 && (rd.payErr || (rd.avail : Int) < h.nbytes))
+    let t := h.mtype
+    let inRange := !(h.dest < 0 || h.dest > cfg.maxModules || h.destHost < 0 || h.destHost > cfg.maxHosts)
+    if !m.alive || broken || isControl cfg t || !inRange || t == cfg.allTypes then a else
+    let mine := (sends evs).filter (fun p => p.2.2.body == .data h.k)
+    (a.mods.filter (fun l => l.alive && l.isLogger && subscribed l t && !a.w.contains l.uid && !a.failing l.uid)).foldl
+      (fun a l => a.chk (mine.any (·.1 == l.uid)) "C14"
+        s!"logger {l.uid} was not ready to accept data when frame {h.k} (type {t}, destination {h.dest}) was delivered and was skipped instead of waited for") a
+
+/-- everything of one round but the periodic section: returns the state and the events of the round's last stretch -/
+def roundBody (cfg : Cfg) (a : A) (r : Round) (evs : List Ev) : A × List Ev :=
   -- a failure mode can only be given to a connection that exists when the round starts
   let a : A := { a with now := a.now + r.dt,
                         fail := (r.failSet.filter (·.1 ≤ a.nAccepted)).foldl (fun fl (p : Nat × Option FailMode) => setFail fl p.1 p.2) a.fail }
@@ -454,11 +503,17 @@ def round (cfg : Cfg) (a : A) (r : Round) (evs : List Ev) : A :=
   let reads := r.reads.filter (fun rd => liveBefore.contains rd.uid)
   let a := if r.accept then { a with nAccepted := a.nAccepted + 1, mods := a.mods ++ [{ uid := a.nAccepted + 1 }] } else a
   let live := (a.mods.filter (·.alive)).map (·.uid)
-  let a := if r.accept || !reads.isEmpty then { a with w := if reads.isEmpty then [] else r.writable.filter (live.contains ·) } else a
+  -- the writable set this round's poll leaves (the manager polls only when there is something to read)
+  let wNew := if r.accept || !reads.isEmpty then (if reads.isEmpty then [] else r.writable.filter (live.contains ·)) else a.w
   let (pre, segs) := splitRd evs
-  -- `pre`: the accept log; nothing may be closed or acknowledged there
-  let a := a.chk ((closes pre).isEmpty || !(wfails pre).isEmpty) "C07" "a connection was closed before any frame was read in this round"
-  let a := applyDepartures (checkDepartures cfg a none pre) pre
+  -- `pre`: the accept branch (its INFO log line and everything nested in it) runs BEFORE this round's poll: readiness
+  -- there is what the PREVIOUS poll left (`a.w`).  When no frame is read in the round `pre` is the whole round — the
+  -- accept branch, then (after the poll) the periodic section — and only a connection that is ready by both polls is
+  -- counted as ready.  Nothing may be closed there without a failed write.
+  let aP : A := if segs.isEmpty then { a with w := a.w.filter (wNew.contains ·) } else a
+  let aP := aP.chk ((closes pre).isEmpty || !(wfails pre).isEmpty) "C07" "a connection was closed before any frame was read in this round"
+  let aP := applyDepartures (checkDepartures cfg (checkNoticeOrigin cfg aP none pre) none pre) pre
+  let a : A := { aP with w := wNew }
   -- every frame the script delivers to a live connection is read, in order, unless its connection died earlier in the round
   let rec go (a : A) (reads : List Read) (segs : List (Nat × List Ev)) (fuel : Nat) : A :=
     match fuel, reads, segs with
@@ -474,7 +529,7 @@ def round (cfg : Cfg) (a : A) (r : Round) (evs : List Ev) : A :=
             if u != rd.uid then a.err "C05" s!"expected the frame from {rd.uid} to be read next, the manager read from {u}"
             else
               -- the last segment of the round also contains the periodic messages
-              go (segment cfg a rd evs) rest segs' fuel
+              go (segment cfg (checkLoggerWaited cfg (checkNoticeOrigin cfg a (some rd) evs) rd evs) rd evs) rest segs' fuel
           | [] => a.err "C03" s!"the frame pending on live connection {rd.uid} was never read"
       | none => go a rest segs fuel
   let a := go a reads segs (reads.length + segs.length + 1)
@@ -482,7 +537,16 @@ def round (cfg : Cfg) (a : A) (r : Round) (evs : List Ev) : A :=
   -- nested notices are sent inside the statistics context and are not counted)
   let a := if segs.isEmpty then a else (pre :: (segs.dropLast.map (·.2))).foldl (noteMgrFrames cfg) a
   let lastEvs := match segs.getLast? with | some s => s.2 | none => pre
-  tail cfg a lastEvs
+  (a, lastEvs)
+
+def round (cfg : Cfg) (a : A) (r : Round) (evs : List Ev) : A :=
+  let p := roundBody cfg a r evs
+  tail cfg p.1 p.2
+
+/-- the round in which `run()` was terminated: what was handled before the exception is judged like any other round (a
+frame whose delivery was cut short leaves its obligations — copies, acknowledgement, notices — unmet); the periodic section,
+which was never reached, is not judged -/
+def roundCrashed (cfg : Cfg) (a : A) (r : Round) (evs : List Ev) : A := (roundBody cfg a r evs).1
 
 /-! ### whole-history checks (C05) -/
 
@@ -578,35 +642,24 @@ def runSpec (cfg : Cfg) (rounds : List Round) (obs : List (List Ev)) (crash : Op
   let a := match crash with
     | some w => a0.err "C03" s!"MessageManager.run() was terminated by {w}"
     | none => a0
-  -- a manager that dies in the middle of an operation leaves that operation's obligations unmet for everybody else
+  -- a manager that dies in a round in which a client left (or a write to a client failed) has let that departure affect
+  -- everybody else; what it did in that round before it died is judged by `roundCrashed` below
   let a := match crash with
     | none => a
     | some w =>
       let lastEvs := obs.getLast?.getD []
-      let a := if !(closes lastEvs).isEmpty || !(wfails lastEvs).isEmpty then
-          a.err "C07" s!"the manager was terminated by {w} while it handled the departure of connection {(wfails lastEvs ++ closes lastEvs).head?.getD 0}: the remaining clients are no longer served"
-        else a
-      let a := if !(wfails lastEvs).isEmpty then
-          a.err "C14" s!"the manager was terminated by {w} while it handled the failed write to connection {(wfails lastEvs).head?.getD 0}: the failure is not reported and the other subscribers are no longer served"
-        else a
-      -- the frame being processed when it died
-      let lastRd := (lastEvs.filterMap (fun (e : Ev) => match e with | Ev.rd u => some u | _ => none)).getLast?
-      let crashRound := rounds.drop (obs.length - 2)
-      match lastRd, crashRound.head? with
-      | some u, some r =>
-        (match (r.reads.filter (fun (x : Read) => x.uid == u)).getLast? with
-         | some rd =>
-           if !isControl cfg rd.h.mtype && rd.hdrOk && !rd.hdrErr then
-             a.err "C01" s!"the manager was terminated by {w} while it forwarded frame {rd.h.k} (type {rd.h.mtype}): delivery to the eligible subscribers was not completed"
-           else if rd.h.mtype == cfg.mtSubscribe || rd.h.mtype == cfg.mtUnsubscribe || rd.h.mtype == cfg.mtPause ||
-                   rd.h.mtype == cfg.mtResume || rd.h.mtype == cfg.mtConnect then
-             a.err "C19" s!"the manager was terminated by {w} while it processed the control frame {rd.h.k} from {u}"
-           else a
-         | none => a)
-      | _, _ => a
+      if !(closes lastEvs).isEmpty || !(wfails lastEvs).isEmpty then
+          a.err "C07" s!"the manager was terminated by {w} in the round in which connection {(wfails lastEvs ++ closes lastEvs).head?.getD 0} departed: the remaining clients are no longer served"
+      else a
   let a := a.chk (obs.length == rounds.length + 1 || crash.isSome) "C03" "the manager did not play every round of the script"
   let pairs := List.zip rounds (obs.drop 1)
-  let a := pairs.foldl (fun a p => round cfg a p.1 p.2) a
+  let a := match crash with
+    | none => pairs.foldl (fun a p => round cfg a p.1 p.2) a
+    | some _ =>
+      let a := pairs.dropLast.foldl (fun a p => round cfg a p.1 p.2) a
+      match pairs.getLast? with
+      | some p => roundCrashed cfg a p.1 p.2
+      | none => a
   let all := obs.flatten
   let senderTbl : List (Nat × Nat) := rounds.flatMap (fun r => r.reads.map (fun rd => (rd.h.k, rd.uid)))
   let senderOf := fun k => match senderTbl.find? (·.1 == k) with | some p => p.2 | none => 0
